@@ -96,25 +96,26 @@ type ScopeH struct {
 
 // Run is one execution of a spec + script against real godi.
 type Run struct {
-	mu         sync.Mutex
-	Spec       *Spec
-	Model      *Model
-	Rec        *rt.Recorder
-	Coll       godi.Collection
-	Prov       godi.Provider
-	RegErrs    []error
-	RegPanics  []any
-	BuildErr   error
-	BuildPanic any
-	Built      bool
-	Scopes     []*ScopeH // index 0: provider pseudo-scope
-	Results    []OpResult
-	Ops        []Op
-	Poisoned   bool        // a panic escaped from godi: stop using this provider
-	kept       []keptSlice // group slices returned by godi that the harness kept untouched
-	sliceFs    []Finding   // kept slices that changed afterwards
-	KeepValues bool
-	Values     map[int]*rt.Inst // instance values registered (reg index -> inst)
+	mu             sync.Mutex
+	Spec           *Spec
+	Model          *Model
+	Rec            *rt.Recorder
+	Coll           godi.Collection
+	Prov           godi.Provider
+	RegErrs        []error
+	RegPanics      []any
+	BuildErr       error
+	BuildPanic     any
+	Built          bool
+	Scopes         []*ScopeH // index 0: provider pseudo-scope
+	Results        []OpResult
+	Ops            []Op
+	Poisoned       bool        // a panic escaped from godi: stop using this provider
+	EditAfterBuild bool        // standardScript: edit the collection right after Build
+	kept           []keptSlice // group slices returned by godi that the harness kept untouched
+	sliceFs        []Finding   // kept slices that changed afterwards
+	KeepValues     bool
+	Values         map[int]*rt.Inst // instance values registered (reg index -> inst)
 }
 
 type ctxKeyT struct{ n int }
